@@ -70,9 +70,11 @@ def atoms(h):
     return out
 
 
-def covering_sample(hs, count, rng, precs=("d", "s", "z", "c")):
-    """greedy cover: (history, precision) pairs chosen so that every per-call feature is exercised in every precision
-    as evenly as the budget allows (a defect in one precision's copy of one driver path needs exactly one such pair)"""
+def covering_sample(hs, count, rng, precs=("d", "s", "z", "c"), scales=(None,)):
+    """greedy cover: (history, precision[, scaling of the generated matrix]) chosen so that every per-call feature is exercised in
+    every precision (and, for the calls whose outcome depends on it, with every kind of bad scaling: none / row / col / both, which
+    decides the equed outcome) as evenly as the budget allows -- a defect in one precision's copy of one driver path, or in one
+    equed branch of it, needs exactly one such combination"""
     cov = {}
     pool = list(hs)
     rng.shuffle(pool)
@@ -82,19 +84,22 @@ def covering_sample(hs, count, rng, precs=("d", "s", "z", "c")):
     for _ in range(min(count, len(pool))):
         best, bs = None, -1.0
         for p in rng.sample(list(precs), len(precs)):
-            for i, a in enumerate(at):
-                if i in used or not a:
-                    continue
-                sc = sum(1.0 / (1 + cov.get((x, p), 0)) ** 2 for x in a)
-                if sc > bs:
-                    best, bs = (i, p), sc
+            for sc in rng.sample(list(scales), len(scales)):
+                for i, a in enumerate(at):
+                    if i in used or not a:
+                        continue
+                    aa = a if sc is None else a | {(x[0], "scale", sc, t[2] != "N") for x in a if x[1] == "gssvx" and x[2] in ("EQUILIBRATE", "FACTORED")
+                                                      for t in a if t[1] == "trans"}
+                    score = sum(1.0 / (1 + cov.get((x, p), 0)) ** 2 for x in aa)
+                    if score > bs:
+                        best, bs = (i, p, sc, aa), score
         if best is None:
             break
-        i, p = best
+        i, p, sc, aa = best
         used.add(i)
-        for x in at[i]:
+        for x in aa:
             cov[(x, p)] = cov.get((x, p), 0) + 1
-        out.append((pool[i], p))
+        out.append((pool[i], p) if scales == (None,) else (pool[i], p, sc))
     return out
 
 
@@ -109,14 +114,19 @@ def run_histories(ck, alphabet, depth, count, rng, precs=("d",), threads=(1, 2, 
     if not hs:
         ck.violation("enum", "TLC enumerated no history: %s" % r["errors"][:2])
         return
-    sample = covering_sample(hs, count, rng, precs)
+    kw = dict(script_kw or {})
+    use_scales = kw.get("scale_for_equil", True) and not kw.get("symmetric")
+    sample = covering_sample(hs, count, rng, precs, scales=("none", "row", "col", "both", "colonly", "rowonly") if use_scales else (None,))
     items = []
-    for i, (h, prec) in enumerate(sample):
+    for i, smp in enumerate(sample):
+        h, prec = smp[0], smp[1]
+        if use_scales:
+            kw["scale"] = smp[2]
         if prec in ("c", "z") and (ck.pid != "C07" or (i // len(precs)) % 3 != 0):
             # complex CONJ is a recorded known finding (F16): C07 keeps a few such histories to re-confirm it,
             # and let the others exercise the transposed solve instead so that the rest of the history is validated
             h = [dict(c, trans="T") if c.get("trans") == "C" else c for c in h]
-        items.append((i, h, prec, api.script_of(h, rng, nmax=nmax, threads=threads, pert=pert, **(script_kw or {}))))
+        items.append((i, h, prec, api.script_of(h, rng, nmax=nmax, threads=threads, pert=pert, **kw)))
     for p in set(precs):
         api.driver(p, variant)     # build before the parallel phase
     tlc.stage(wd)
